@@ -195,6 +195,7 @@ func (d *nftDP) Check(ctx context.Context, tx *knftables.Transaction) error {
 func (d *nftDP) ListAll(ctx context.Context) (map[string][]string, error) {
 	if _, m := d.fault("listall"); m != "" {
 		d.r.readOK = false
+		d.r.savedEpoch = -1 // Felix now works from a view it could not refresh
 		return nil, errInjected
 	}
 	res, err := d.fake.ListAll(ctx)
@@ -218,6 +219,7 @@ func (d *nftDP) List(ctx context.Context, objectType string) ([]string, error) {
 
 func (d *nftDP) ListRules(ctx context.Context, chain string) ([]*knftables.Rule, error) {
 	if _, m := d.fault("listrules"); m != "" {
+		d.r.savedEpoch = -1
 		return nil, errInjected
 	}
 	rules, err := d.fake.ListRules(ctx, chain)
@@ -459,6 +461,7 @@ func (r *nftRunner) newFelix() {
 		ListInterfacesOverride: func() ([]string, error) { return []string{"lo", "eth0"}, nil },
 		OpRecorder:             nopRecorder{},
 	}, true)
+	r.savedEpoch = -1 // a new instance has read nothing yet
 	r.count("instances", 1)
 	var cs []dchain
 	for _, n := range r.sc.names {
@@ -1008,6 +1011,17 @@ func genNftScenario(R *rand.Rand, thorough bool) *nftScenario {
 			}
 			p := R.Intn(len(bc.Rules) + 1)
 			bc.Rules = append(bc.Rules[:p:p], append([][2]string{rl}, bc.Rules[p:]...)...)
+		}
+		// every jump/goto target must exist (nft refuses dangling references)
+		for _, n := range append([]string{}, order...) {
+			for _, rl := range chains[n].Rules {
+				w := strings.Fields(rl[0])
+				for i := 0; i+1 < len(w); i++ {
+					if w[i] == "jump" || w[i] == "goto" {
+						add(w[i+1])
+					}
+				}
+			}
 		}
 		for _, n := range order {
 			sc.start = append(sc.start, *chains[n])
